@@ -97,6 +97,196 @@ def api_case(rng):
     return {'kind': 'api', 'calls': calls}
 
 
+def api_case_directed(rng):
+    """direct-API sequences aimed at the index arithmetic the model decides: overflow tests, the flat-span test of
+    set_words after the storage decision, slot-table growth, capacity doubling, bad list elements, re-__init__"""
+    w = rng.choice([8, 16, 32, 64])
+    fm = rng.choice([0, 1, 2, 3, 5, 1 << 14, (1 << 14) + 1, 1 << 23])
+    calls = [['new', [w], {'flat_max_words': fm}]]
+    kind = rng.choice(['span', 'overflow', 'pages', 'segments', 'baditems', 'reinit', 'ring', 'hybrid'])
+    n = rng.choice([2, 4, 6, 8, 40])
+    words = [rng.choice([0, 2 * w, 2 * w + 1, rng.randrange(8 * w), rng.getrandbits(w)]) for _ in range(n)]
+    if kind == 'span':
+        calls += [['add_segment', 0, n], ['set_words', 0, words], ['run', rng.choice(['', 'a5']), {'last_ops_length': 0, 'start_ip': 0}]]
+        for _ in range(rng.choice([2, 6])):
+            a = rng.choice([0, 1, n - 1, n, n + 1, fm, max(fm, 1) - 1, U64, U64 - 1, rng.randrange(2 * n + 2)])
+            calls.append(['set_words', a, [rng.getrandbits(64) for _ in range(rng.choice([0, 1, 2, n]))]])
+            calls.append(['get_word', rng.choice([a, n, n - 1, (a + 1) & U64])])
+    elif kind == 'overflow':
+        for _ in range(rng.choice([3, 8])):
+            a = rng.choice([U64, U64 - 1, U64 - 7, 1 << 63, (1 << 63) + 5, 0, 4])
+            ln = rng.choice([0, 1, 2, 7, 8, (U64 - a + 1) & U64, (U64 - a) & U64, U64, 1 << 63])
+            calls.append(['add_segment', a, ln])
+            calls.append(['set_words', a, [rng.getrandbits(64) for _ in range(rng.choice([0, 1, 2, 8]))]])
+        calls.append(['run', '', {'last_ops_length': rng.choice([0, 2]), 'start_ip': rng.choice([0, U64 - 63, U64 - w, U64])}])
+    elif kind == 'pages':
+        calls.append(['add_segment', 0, n])
+        cnt = rng.choice([10, 40, 70, 140])
+        for i in range(cnt):
+            pg = rng.choice([i, i * 16, i * 17 + 3, rng.getrandbits(50), (1 << 50) - 1 - i])
+            calls.append([rng.choice(['set_word', 'set_word', 'get_word']), ((pg << 14) | rng.randrange(1 << 14)) & U64] )
+            if calls[-1][0] == 'set_word':
+                calls[-1].append(rng.getrandbits(64))
+        calls.append(['run', '', {'last_ops_length': 0, 'start_ip': 0}])
+        calls.append(['get_word', rng.getrandbits(64)])
+    elif kind == 'segments':
+        for i in range(rng.choice([7, 9, 17, 33, 70])):
+            calls.append(['add_segment', rng.choice([4 * i, rng.randrange(1 << 16), 0]), rng.choice([0, 2, 4, 1 << 14])])
+        calls += [['set_words', 0, words], ['run', '', {'last_ops_length': 0, 'start_ip': 0}], ['get_word', 3], ['set_word', 5, 7]]
+    elif kind == 'baditems':
+        calls += [['add_segment', 0, n + 8]]
+        for _ in range(3):
+            vals = [rng.getrandbits(64) for _ in range(rng.choice([0, 1, 3]))] + [rng.choice(['neg', 'big', 'huge', 'str', 'none', 'float'])] + [1, 2]
+            calls.append(['set_words', rng.choice([0, 2, 1 << 14, U64 - 1]), vals])
+            calls.append(['get_word', rng.choice([0, 2, 3])])
+            if rng.random() < 0.4:
+                calls.append(['run', '', {'last_ops_length': 0, 'start_ip': 0}])
+    elif kind == 'reinit':
+        calls += [['add_segment', 0, n], ['set_words', 0, words], ['run', '', {'last_ops_length': 0, 'start_ip': 0}],
+                  ['init', [rng.choice([8, 16, 32, 64])], {'flat_max_words': rng.choice([0, 2, 1 << 14])}], ['get_word', 0],
+                  ['run', '', {'last_ops_length': 0, 'start_ip': 0}], ['add_segment', 0, 2], ['set_word', 1, 1],
+                  ['run', '', {'last_ops_length': 3, 'start_ip': 0}], ['set_words', 1, [1, 2, 3]]]
+    elif kind == 'ring':
+        calls += [['add_segment', 0, n], ['set_words', 0, words]]
+        for _ in range(3):
+            calls.append(['run', rng.choice(['', 'ff']), {'last_ops_length': rng.choice([1, 2, 3, 7, -1, 100]), 'start_ip': rng.choice([0, 0, 2 * w, 4 * w, 1])}])
+    else:  # hybrid: a window smaller than the segments, far segments
+        far = rng.choice([1 << 14, (1 << 14) - 1, 1 << 23, 1 << 40, (1 << 58) - 2])
+        calls += [['add_segment', 0, n], ['add_segment', far, rng.choice([2, 4, 1 << 14])], ['set_words', 0, words],
+                  ['set_words', far, [rng.getrandbits(w) for _ in range(2)]],
+                  ['run', '', {'last_ops_length': rng.choice([0, 0, 4]), 'start_ip': rng.choice([0, (far << (w.bit_length() - 1)) & U64])}],
+                  ['get_word', far], ['set_word', far + 1, 5], ['set_words', far, [1]]]
+    env = {}
+    r = rng.random()
+    if r < 0.12:
+        env['no_flat'] = True
+    elif r < 0.3:
+        env['measure'] = True
+    elif r < 0.4:
+        env['flat_max_env'] = rng.choice([1, 2, 4, 1 << 14, 1 << 20])
+    return {'kind': 'api', 'tags': ['directed', kind], 'env': env, 'calls': calls}
+
+
+IO_PROGRAM = lambda w: [5 * w, 2 * w, 5 * w + 1, 4 * w, 2 * w, 4 * w, 0, 0]   # op0 -> op1 (input) -> op2 (output, halts by looping)
+
+
+def refprobe_case(rng):
+    """reference-count probe: run() and set_words() on their normal and error paths"""
+    w = rng.choice([8, 16, 32, 64])
+    calls = [['new', [w], {'flat_max_words': rng.choice([0, 0, 4])}], ['add_segment', 0, 8], ['set_words', 0, IO_PROGRAM(w)]]
+    io = rng.choice([None, {'read': 'raise'}, {'read': 'nonbool'}, {'read': 'badtruth'}, {'read': 'eof'}, {'write': 'raise'},
+                     {'read': 'raise', 'at': 1}, {'write': 'raise', 'at': 1}])
+    for _ in range(rng.choice([1, 2])):
+        kw = {'last_ops_length': rng.choice([0, 0, 3]), 'start_ip': 0}
+        if io:
+            kw['io'] = io
+        calls.append(['run', rng.choice(['', '01', 'ff']), kw])
+        calls.append(['set_words', rng.choice([0, 0, 9, U64]), rng.choice([[1, 2], [1, 'neg', 2], ['big'], [3, 'str'], ['none', 1], [], [1, 2, 3, 'huge']])])
+        calls.append(['set_words', 0, IO_PROGRAM(w)])
+    return {'kind': 'api', 'tags': ['refprobe', json.dumps(io, sort_keys=True)], 'calls': calls}
+
+
+# ---- the model tie: the same call sequences evaluated by Model/NativeSafeCase.v inside Coq ----------------------
+
+EXC_CODE = {'ValueError': 1, 'MemoryError': 2, 'OverflowError': 3, 'TypeError': 4}
+TIE_MAX_OPS = 5000
+TIE_HEADER = 'From FJ Require Import Lib.Base Model.NativeSafe Model.NativeSafeCase.\nLocal Open Scope N_scope.\n'
+
+
+def _n(x):
+    """N literal; hexadecimal for large values (parsed about twice as fast by coqc)"""
+    x = int(x)
+    return str(x) if x < 65536 else hex(x)
+
+
+def _nl(xs):
+    return '[' + ';'.join(_n(x) for x in xs) + ']'
+
+
+def _item(x):
+    if isinstance(x, int) and not isinstance(x, bool):
+        return f'ItInt {_n(x)}' if 0 <= x < (1 << 64) else 'ItOverflow'
+    return 'ItOverflow' if x in ('neg', 'big', 'huge') else 'ItNotInt'
+
+
+def _bits(hexs):
+    return '[' + ';'.join('true' if (b >> i) & 1 else 'false' for b in bytes.fromhex(hexs) for i in range(8)) + ']'
+
+
+def tie_terms(case, res):
+    """[(coq call term, coq observation term, call index)] for the prefix of the case the model can be compared on"""
+    terms = []
+    for ci, (call, r, ob) in enumerate(zip(case['calls'], res['results'], res.get('obs', []))):
+        name, args = call[0], call[1:]
+        if ob is None or ob[1] == 9:
+            break
+        vals = []
+        if isinstance(r, str) and r.startswith('exc:'):
+            cls = EXC_CODE.get(r[4:], 5)
+            if r[4:] == 'KeyboardInterrupt':
+                break                                  # the watchdog fired: nothing to compare from here on
+        else:
+            cls = 0
+        if name in ('new', 'init'):
+            t = f'TInit {args[0][0]} {_n(args[1].get("flat_max_words", 0))}'
+        elif name == 'add_segment':
+            t = f'TAdd {_n(args[0])} {_n(args[1])}'
+        elif name == 'set_word':
+            t = f'TSetWord {_n(args[0])} {_n(args[1])}'
+        elif name == 'get_word':
+            t = f'TGetWord {_n(args[0])}'
+            vals = [r] if cls == 0 else []
+        elif name == 'set_words':
+            t = f'TSetWords {_n(args[0])} [' + ';'.join(_item(x) for x in args[1]) + ']'
+        elif name == 'run':
+            if 'io' in args[1]:
+                break                                  # misbehaving callbacks: dynamic probe only
+            if cls == 0:
+                if r[1] > TIE_MAX_OPS:
+                    break
+                vals = [r[0], r[1], 0 if r[2] is None else r[2] + 1] + list(r[3])
+            t = f'TRun {_bits(args[0])} ({args[1].get("last_ops_length", 0)})%Z {_n(args[1].get("start_ip", 0))}'
+        elif name == 'get':
+            t = 'TGet'
+        else:
+            break
+        terms.append((t, f'mkObs {cls} {_n(ob[0])} {ob[1]} {_nl(vals)}', ci))
+    return terms
+
+
+def case_term(case, terms):
+    env = case.get('env', {})
+    ev = f'mkEnv {"true" if env.get("no_flat") else "false"} {env.get("flat_max_env", 0)} false {"true" if env.get("measure") else "false"}'
+    return f'({ev}, [' + ';\n '.join(f'({t}, {o})' for t, o, _ in terms) + '])'
+
+
+def model_tie(ctx, api):
+    """api: list of (case, result).  Evaluates the model on every sequence; returns the number of compared calls."""
+    entries = [(c, r, tie_terms(c, r)) for c, r in api]
+    entries = [e for e in entries if e[2]]
+    oks = fw.coq_eval_shards(ctx, 'c11tie', TIE_HEADER, [case_term(c, t) for c, _, t in entries], 'check_case', shard=60)
+    ncalls = 0
+    bad = []
+    for (c, r, terms), ok in zip(entries, oks):
+        ncalls += len(terms)
+        ctx.hist('tie', 'agree' if ok else 'not-evaluated' if ok is None else 'DISAGREE')
+        for (t, o, _), res_ in zip(terms, r['results']):
+            ctx.hist('tie_call', t.split(' ')[0] + ':' + (res_ if isinstance(res_, str) else 'ok'))
+        if ok is False:
+            bad.append((c, r, terms))
+    for c, r, terms in bad[:3]:
+        # isolate the first call on which model and implementation differ
+        pre = fw.coq_eval_shards(ctx, 'c11tie_iso', TIE_HEADER, [case_term(c, terms[:k + 1]) for k in range(len(terms))], 'check_case', shard=80)
+        k = next((i for i, ok in enumerate(pre) if not ok), len(terms) - 1)
+        ci = terms[k][2]
+        ctx.broken_tie('C11 model tie (Model/NativeSafeCase.check_case)',
+                       'the index model of _fjcore.c and the sanitizer build disagree (no sanitizer report) at call '
+                       f'{ci} = {json.dumps(c["calls"][ci])[:300]}: implementation result {json.dumps(r["results"][ci])[:200]} '
+                       f'observables {r["obs"][ci]}; calls so far: {json.dumps(c["calls"][:ci + 1])[:1500]}')
+    return ncalls
+
+
+
 def gen_cases(ctx, n):
     rng = ctx.rng
     cases = []
@@ -117,6 +307,11 @@ def gen_cases(ctx, n):
         cases.append(dict(kind='file', w=w, segs=table, words=pool, version=rng.choice([0, 1]),
                           input=bytes(rng.randrange(256) for _ in range(rng.choice([0, 1, 2]))).hex(),
                           script=device_script(rng, table), tags=tags, **k))
+    # appended after the (unchanged) sanitizer campaign: directed API sequences for the model tie, refcount probes
+    for _ in range(max(200, min(n // 8, 6000))):
+        cases.append(api_case_directed(rng))
+    for _ in range(max(100, min(n // 25, 2000))):
+        cases.append(refprobe_case(rng))
     return cases
 
 
@@ -142,21 +337,33 @@ def run_batch(ctx, so, cases, idx):
             break
         at = start + len(done)
         aborts.append((at, p.returncode, p.stdout[-3000:]))
+        if len(aborts) >= 6:
+            break                                      # enough evidence from this batch; the rest counts as skipped
         start = at + 1
     return results, aborts
 
 
-def run(ctx):
-    ctx.level = 'proof'
-    fw.static_proofs(ctx, ['Properties/C11.v'])
-    so = fw.build_fjcore(ctx, sanitize=True)
-    cases = gen_cases(ctx, ctx.n(10000, 200000))
+def campaign_round(ctx, so, cases):
+    """run one round of cases on the sanitizer build; records violations/histograms; returns the (case, result) of the API cases"""
     nb = fw.NCPU
     chunks = [cases[i::nb] for i in range(nb)]
     with ThreadPoolExecutor(max_workers=nb) as ex:
         outs = list(ex.map(lambda t: run_batch(ctx, so, t[1], t[0]), list(enumerate(chunks))))
+    api = []
+    aborted = False
     for (results, aborts), chunk in zip(outs, chunks):
+        aborted = aborted or bool(aborts)
         for c, r in zip(chunk, results):
+            if r is not None and c['kind'] == 'api':
+                api.append((c, r))
+                for lk in r.get('leaks', []):
+                    ctx.violation({'kind': 'refcount-leak', 'call': lk['name']},
+                                  f"reference count of an object passed to {lk['name']}() changed across the call: {lk}",
+                                  {'case': c, 'leak': lk,
+                                   'how': 'fjverif.workers.native_api on this case: sys.getrefcount of read_bit/write_bit/eof type/values before and after'})
+                for call, res_ in zip(c['calls'], r['results']):
+                    if call[0] in ('run', 'set_words'):
+                        ctx.hist('refcount_probe', call[0] + ':' + (res_ if isinstance(res_, str) else 'ok'))
             ctx.count(json.dumps(c, sort_keys=True)[:4000], nontrivial=True)
             ctx.hist('case_kind', c['kind'] + ':' + ','.join(c.get('tags', [])[-1:]))
             if r is None:
@@ -175,6 +382,34 @@ def run(ctx):
                           f'sanitizer build of the native engine aborted (rc={rc}, {kind}) {where}',
                           {'case': c, 'stderr_tail': tail,
                            'how': 'build _fjcore.c with -fsanitize=address,undefined and run fjverif.workers.native_api on this case'})
+    return api
+
+
+def run(ctx):
+    ctx.level = 'proof'
+    fw.static_proofs(ctx, ['Properties/C11.v'], extra_targets=['Model/NativeSafeCase.vo'])
+    so = fw.build_fjcore(ctx, sanitize=True)
+    # the campaign runs in rounds of 10000 (+ the appended directed/probe cases): one round in the quick tier; the
+    # thorough tier would otherwise hold 200000 cases and 16 sanitizer workers' inputs in memory at once
+    total = ctx.n(10000, 150000)
+    api = []
+    first_cases = None
+    want = ctx.n(1000, 6000)
+    rounds = max(1, total // 10000)
+    for _ in range(rounds):
+        cases = gen_cases(ctx, total // rounds)
+        if first_cases is None:
+            first_cases = cases
+        got = campaign_round(ctx, so, cases)
+        api += got[::max(1, len(got) * rounds // want)][:max(1, want // rounds)]
+        if len(ctx.violations) >= 8:
+            break
+    cases = first_cases
+    # the tie of the proved index model (Properties/C11.v) to the code: same call sequences inside Coq
+    tie_cases = api[:want]
+    ncalls = model_tie(ctx, tie_cases)
+    ctx.coverage['tie_sequences'] = len(tie_cases)
+    ctx.coverage['tie_calls_compared'] = ncalls
     ctx.sample(cases[0])
     ctx.sample(next(c for c in cases if c['kind'] == 'file' and c['tags'] and c['tags'][-1] in ('end_2_64', 'huge_len', 'many')))
     ctx.coverage['rule'] = ('ASan+UBSan build of the current _fjcore.c; cases: (a) valid generated images with random knobs and device '
@@ -182,6 +417,14 @@ def run(ctx):
                             'segment tables (huge lengths, ranges ending at 2^64, thousands of unsorted segments, overlaps, zero length, '
                             'data beyond the segment), (c) direct Memory API call sequences (add_segment/set_word/get_word/set_words/run/'
                             're-__init__) with adversarial arguments; violation = any sanitizer report or abnormal worker exit; '
-                            'distinct = distinct case descriptions')
-    ctx.assumptions += ['reference-count ownership and host-crash freedom are exercised dynamically only (sanitizer), not proved',
+                            'distinct = distinct case descriptions.  Model tie: every direct-API sequence is also evaluated by the Coq '
+                            'index model (Model/NativeSafeCase.check_case, vm_compute) and compared call by call: result class '
+                            '(ok / ValueError / OverflowError / TypeError / MemoryError), allocated_bytes, storage_mode, get_word values and '
+                            'run results (cause, op count, fault address, last ops); a disagreement without a sanitizer report is a broken tie.  '
+                            'Refcount probe: sys.getrefcount deltas of read_bit, write_bit, the EOF type and the values list around every run()/'
+                            'set_words() call including the error paths (callback raises / returns a non-bool / bad list elements) must be 0')
+    ctx.assumptions += ['reference-count ownership and host-crash freedom are exercised dynamically only (sanitizer + refcount probe), not proved',
+                        'the theorems are about the hand-written index model Model/NativeSafe.v; allocator: no object larger than PTRDIFF_MAX; '
+                        'callbacks only call get_word/set_word (the NativeDeviceMemory interface) - re-entering run/__init__/set_words from a '
+                        'callback is outside the property and outside the model',
                         'flat_max_words between 2^25 and 2^44 is not generated (the window would really be allocated)']
